@@ -45,6 +45,7 @@ type vTransport struct {
 	probes []int
 	// holdWrites > 0: that many Write calls block until release is closed (a peer that stops reading for a while)
 	holdWrites int
+	holdAt     int // hold the k-th Write call (1-based; 0: none) until release is closed
 	release    chan struct{}
 
 	// slowRelease: a Write blocked by writeBlock returns only this long after Close (a kernel that takes its time)
@@ -132,8 +133,10 @@ func (t *vTransport) Write(p []byte) (int, error) {
 	if t.probe != nil {
 		t.probes = append(t.probes, t.probe())
 	}
-	if t.holdWrites > 0 {
-		t.holdWrites--
+	if t.holdWrites > 0 || (t.holdAt > 0 && len(t.writes)+1 == t.holdAt) {
+		if t.holdWrites > 0 {
+			t.holdWrites--
+		}
 		select {
 		case <-t.release:
 		case <-t.closed:
